@@ -107,7 +107,8 @@ SnakeOf == [ GetBook |-> "get_book", CreateBook |-> "create_book", UpdateBook |-
              ListBooks |-> "list_books", MoveBook |-> "move_book", WatchBooks |-> "watch_books", UploadBooks |-> "upload_books",
              ChatBooks |-> "chat_books", ExportBooks |-> "export_books", PurgeBooks |-> "purge_books", ListById |-> "list_by_id",
              ListOld |-> "list_old", Import |-> "import_", CreateChannel |-> "create_channel", RenameBook |-> "rename_book",
-             CheckDep |-> "check_dep", StartRaw |-> "start_raw", LabelBook |-> "label_book" ]
+             CheckDep |-> "check_dep", StartRaw |-> "start_raw", LabelBook |-> "label_book",
+             StampBook |-> "stamp_book", GetAuthor |-> "get_author" ]
 TestKinds == (IF HasT("grpc") THEN {"grpc"} ELSE {}) \cup (IF HasT("grpc") /\ HasAsync THEN {"grpc-async"} ELSE {})
              \cup (IF HasT("rest") THEN {"rest"} ELSE {})
 RequiredTests == { [rpc |-> SnakeOf[r], kind |-> k, pager |-> FALSE] : r \in LibraryRpcs, k \in TestKinds }
